@@ -60,7 +60,7 @@ ASSUMPTIONS = [
     "hist part: media cache is the library default or a named locmem cache with MAX_ENTRIES=10**9; at most ~25 entries",
 ]
 BOUNDS = {
-    "quick": {"histories": 960, "max_steps": 20, "churn_cases": 64, "churn_max_steps": 400},
+    "quick": {"histories": 1920, "max_steps": 20, "churn_cases": 64, "churn_max_steps": 400},
     "thorough": {"histories": 16000, "max_steps": 20, "churn_cases": 480, "churn_max_steps": 400},
 }
 
